@@ -86,6 +86,32 @@ CLAIMS["C48"] = ("other", "alias/mutation analysis (fresh vs view-of-parameter l
                  "values are not decided.", "Trusts Python's ast; numpy allocating/view idiom tables are explicit in the checker.",
                  "DESIGN.md 4/C48")
 
+CLAIMS["C41"] = ("other", "exception-escape analysis over Python ast (raise sites, closed enumeration of raising operations with discharge "
+                 "idioms, regex-in-float-grammar inclusion via NFA/DFA product), validator assume/guarantee, recursion-depth rule, "
+                 "rule coverage by dependence signature",
+                 "Decides for every input text: every raise in the parse closure constructs SchemaError with a token/declaration line; "
+                 "every other operation that can raise (conversions, subscripts, cursor moves, unpacking, None attributes, recursion) "
+                 "is discharged by a named idiom or reported; the validator guarantees the lookups its consumers make and runs between "
+                 "parse and return; each documented rule has a SchemaError raise control-dependent on that rule's data (24 signatures). "
+                 "Not decided: TypeError from non-ordering operand types, that the reported line is <= the line count.",
+                 "Trusts Python's ast and re._parser; idiom tables are explicit in the checker.", "DESIGN.md 4/C41")
+CLAIMS["C42"] = ("other", "determinism lint over set-typed values, exhaustiveness of dispatches against the schema vocabulary, validator "
+                 "assume/guarantee for table lookups, recursion/visited-set rule over Python ast",
+                 "Decides for every valid schema the structural clauses: no order-dependent use of a set and no ambient nondeterminism "
+                 "feeds emitted text; every dispatch over attribute type / cardinality / constraint verb covers the parser's own "
+                 "vocabulary or ends in an explicit default; every schema-table lookup is justified by a membership test, key provenance "
+                 "or a validator guarantee; element-tree walks have an ancestry/visited test (one known finding: generate_mjcf_table). "
+                 "Faithfulness of the emitted text is not decided.",
+                 "Trusts Python's ast; literal anchor names (mujoco, worldbody...) are listed as assumptions in the evidence.",
+                 "DESIGN.md 4/C42")
+CLAIMS["C04"] = ("other", "sibling agreement of flattened orchestration sequences (inlining + constant propagation over the clang AST), "
+                 "mod-set of the mj_forward closure over the whole-engine call graph, lazy-flag clear placement",
+                 "Decides: for the Euler/implicit/implicitfast integrators mj_step and mj_step1;mj_step2 run the same guarded stage "
+                 "sequence; mj_forwardSkip and mj_inverseSkip guard the shared sensor/energy stages identically; nothing reachable from "
+                 "mj_forward writes a field of the integration state (state fields derived from the state tables); every lazy flag of "
+                 "mjData is cleared before the same sensor stage in all three full pipelines. Numerical equality and warm-start "
+                 "idempotence are not decided.", "Trusts clang's AST; callbacks/plugins are external.", "DESIGN.md 4/C04")
+
 NOT_APPLICABLE = {
     "C06": "numerical identities of M, LTDL and RNE over real-valued runtime data; no clause is visible in code shape",
     "C07": "'J equals the derivative of position' and proper-rotation claims are numerical; joint-type exhaustiveness is decided under C05",
